@@ -9,6 +9,14 @@ CHECKS = {
          "Exploration: every ordered pair of a 450-value boundary grid (each integer in every encoding that can hold it, floats around every power-of-two boundary, NaN/inf/-0) under all 13 operators and negation is enumerated completely, then 400k (quick) / 16M (thorough) random pairs; the oracle is exact, so any wrapped, truncated, mis-compared or encoding-dependent result inside the explored space is reported.",
          "Trusted base: Rust std checked i128 arithmetic and f64 operations used by the reference; float // % ** are compared against std div_euclid/rem_euclid/powf. Not a proof for all 2^256 pairs.",
          "DESIGN.md section 4 C13"),
+ "C14": ("differential against a transcription of CPython's PySlice_AdjustIndices over an exhaustive (sequence x start x stop x step) grid including 128-bit extremes, plus proptest-generated sequences/parameters and character-wise agreement laws on multi-byte strings",
+         "Exploration: the slice grid (15 sequences x 30^3 parameter triples, plus every presence mask and every wrong parameter kind) and the index grid are enumerated completely; random deepening to length 40; length/reverse/truncate/iteration/index must agree by characters on generated Unicode strings.",
+         "Trusted base: the transcription of the CPython algorithm (self-evident, 40 lines). u128 bounds above i128::MAX are treated as far-out-of-range integers.",
+         "DESIGN.md section 4 C14"),
+ "C20": ("round-trip (b64 encode/decode under all four option combinations), alphabet/shape validity predicates against an independent RFC 4648 encoder and percent-decoder, JSON re-read with serde_json and an own exact-number reader against the value model, three-valued validity oracle for decoder inputs; all over proptest-generated Unicode strings and values",
+         "Exploration: every ASCII byte alone and in context, every length 0..9 (all padding cases), 150k random Unicode strings up to 4096 bytes, 150k decoder inputs, 150k JSON values (quick; x30 thorough) through the real filters registered on an engine and invoked from templates.",
+         "Trusted base: own base64/percent/JSON reference readers; serde_json as a second JSON acceptor. Values with non-finite floats or keys colliding after stringification are outside the statement and discarded (counted).",
+         "DESIGN.md section 4 C20"),
 }
 NOT_BUILT_REASON = "check not built yet (work in progress in this session); see DESIGN.md section 4 for the planned generated-input check"
 ALL = ["C%02d" % i for i in range(1, 21)]
